@@ -210,6 +210,13 @@ func (c *Ctx) Violations() int {
 }
 
 func (c *Ctx) Inconclusive(why string) {
+	if c.MuteViolations {
+		// a workload of another check reused as a race-detector workload: a step whose functional precondition did not
+		// hold (e.g. a 500ms read timeout that expired before the first round trip under the race detector) is
+		// counted, not judged - the reusing check has its own observation minima
+		c.Count("reused_workload_steps_skipped", 1)
+		return
+	}
 	c.mu.Lock()
 	if len(c.incon) < 20 {
 		c.incon = append(c.incon, why)
